@@ -8,6 +8,15 @@ impl SrtlaConnection {
     /// Register a packet as in-flight. O(1) insert.
     #[inline]
     pub fn register_packet(&mut self, seq: i32, send_time_ms: u64) {
+        // A sequence at or below the cumulative-ACK high-water mark (a
+        // retransmission racing the ACK) lies outside the `(highest_acked, ack]`
+        // range the fast path of `handle_srt_ack` scans, and a repeat of the
+        // same ACK is skipped outright, so it would stay in flight until a
+        // NAK, a >64 jump or a reset. Drop the mark so the next cumulative ACK
+        // takes the full `retain` path and retires it.
+        if seq <= self.highest_acked_seq {
+            self.highest_acked_seq = i32::MIN;
+        }
         self.packet_log.insert(seq, send_time_ms);
         self.in_flight_packets = self.packet_log.len() as i32;
     }
